@@ -132,7 +132,9 @@ def handle (op : String) (as : List (List Nat)) : J :=
     .obj [("sentence", .bool (Spec.Sentence GV.Gen.grammar T.startRule ks)),
           ("accepts", .bool (acceptsAbs T ks)),
           ("events", match eventsAbs T ks with | some es => .arr (es.map evJ) | none => .null),
-          ("errors", .arr ((errorsAbs T 0 0 (ks ++ [.EOF])).map J.num))]
+          ("errors", .arr ((errorsAbs T 0 0 (ks ++ [.EOF])).map J.num)),
+          ("trace", .arr ((traceAbs T 0 (ks ++ [.EOF])).map fun (s, b) =>
+              .arr [.num s, match b with | some i => .num i | none => .null]))]
   | "mdmatch" =>
     -- kind | dialect | line
     match MState.init D (arg as 1) with
